@@ -38,9 +38,17 @@ def nameMembers (parentNs : Option String) (name : Name) : List (String × Json)
   else if name.ns.isNone then [("namespace", .str ""), ("name", .str name.short)]
   else [("name", .str name.fq)]
 
-/-- `str_for_ref` -/
-def refString (parentNs : Option String) (name : Name) : String :=
+/-- `str_for_ref` before the repair of D20: a bare short name even when it is a type keyword
+    (kept for the negation witness `C09_ref_keyword_corner`). -/
+def refStringOld (parentNs : Option String) (name : Name) : String :=
   if parentNs = name.ns then name.short
+  else if name.ns.isNone then "." ++ name.fq
+  else name.fq
+
+/-- `str_for_ref`: the bare short name when the namespaces agree and the name is not one of the
+    thirteen type names (which the parser would read as that type); otherwise a dotted spelling. -/
+def refString (parentNs : Option String) (name : Name) : String :=
+  if parentNs = name.ns ∧ (RawType.ofString name.short).isNone then name.short
   else if name.ns.isNone then "." ++ name.fq
   else name.fq
 
